@@ -43,7 +43,7 @@ def cases(tier, seed):
     for v in vs:
         fam += progs.p_shapes(v, None if tier == "thorough" else progs.QUICK_P + ["U", "big"])
         fam += progs.pc_shapes(v)
-    qn = al.Q_ORDER if tier == "thorough" else ["c16", "c4", "c5", "lens", "blob", "rsq", "scub", "dblh"]
+    qn = (al.Q_ORDER if tier == "thorough" else ["c16", "c4", "c5", "lens", "blob", "rsq", "scub", "dblh"]) + ["tear", "tearg"]
     for q in qn:
         fam.append(["L", "Q." + q])
         fam.append(["L", "Q." + q + "@cw"])
